@@ -183,10 +183,8 @@ def dask_phase(ctx, cfgs, per_graph):
 
     jobs = [(cfg, split) for cfg in cfgs for split in range(len(cfg["shape"]))]
     shapes, by_shape = {}, []
-    for cfg, split in jobs:
-        d, _, _ = build_dask(cfg, split)
-        g = RealGraph(d)
-        by_shape.append(shapes.setdefault(g.shape(), len(shapes)))
+    for shp in ctx.pmap(_graph_shape, jobs):
+        by_shape.append(shapes.setdefault(shp, len(shapes)))
     graphs = [None] * len(shapes)
     for shp, i in shapes.items():
         graphs[i] = {"n": shp[0], "deps": [list(x) for x in shp[1]]}
@@ -196,15 +194,26 @@ def dask_phase(ctx, cfgs, per_graph):
     ctx.m_runs.append({"model": "TaskGraph (schedules of the real mpu_write graphs)", "graphs": len(graphs),
                        "distinct_states": st["distinct"], "states_generated": st["generated"],
                        "schedules": sum(len(v) for v in orders.values())})
-    events = []
+    runs = []
     for (cfg, split), gi in zip(jobs, by_shape):
         os_ = orders[gi]
         if len(os_) > per_graph:
             os_ = [os_[i] for i in sorted(ctx.rng.sample(range(len(os_)), per_graph))]
         for o in os_:
-            events.append(run_dask(cfg, split, o))
-        events.append(run_dask(cfg, split, None))
-    return events
+            runs.append((cfg, split, o))
+        runs.append((cfg, split, None))
+    return ctx.pmap(_run_dask_job, runs)
+
+
+def _graph_shape(job):
+    from ..sched import RealGraph
+
+    d, _, _ = build_dask(*job)
+    return RealGraph(d).shape()
+
+
+def _run_dask_job(job):
+    return run_dask(*job)
 
 
 def _validate(ctx, events):
@@ -223,7 +232,7 @@ def _tags(cfg):
 
 
 def run(ctx):
-    cfgs = ["MC_MPU_quick.cfg"] if ctx.quick() else ["MC_MPU_quick.cfg", "MC_MPU_medium.cfg", "MC_MPU_four.cfg", "MC_MPU_five.cfg"]
+    cfgs = ["MC_MPU_quick.cfg", "MC_MPU_three.cfg", "MC_MPU_tiny.cfg"] if ctx.quick() else ["MC_MPU_quick.cfg", "MC_MPU_three.cfg", "MC_MPU_tiny.cfg", "MC_MPU_medium.cfg", "MC_MPU_four.cfg", "MC_MPU_five.cfg"]
     cases = []
     for i, cfg in enumerate(cfgs):
         res, cs = ctx.model_check("mpu/MC_MPU.tla", cfg, emit=True, timeout=1800, coverage=(i == 0))
@@ -261,7 +270,7 @@ def run(ctx):
             seen.add(k)
             dcfgs.append(c["cfg"])
     wcfgs = [c for c in dcfgs if len(c["shape"]) >= 6]
-    dcfgs = ctx.subsample([c for c in dcfgs if len(c["shape"]) < 6], 400 if ctx.quick() else 5000) + ctx.subsample(wcfgs, 40 if ctx.quick() else 600)
+    dcfgs = ctx.subsample([c for c in dcfgs if len(c["shape"]) < 6], 3000 if ctx.quick() else 30000) + ctx.subsample(wcfgs, 200 if ctx.quick() else 3000)
     devents = dask_phase(ctx, dcfgs, 2 if ctx.quick() else 4)
     dverdicts = _validate(ctx, devents)
     for ev, v in zip(devents, dverdicts):
